@@ -4,13 +4,14 @@ from vf import sched
 
 sched.install()  # before eliot is imported
 
+import asyncio
 import itertools
 import json
 import random
 import threading
 
 import eliot
-from eliot import _action, _output
+from eliot import _action, _output, current_action, log_message, start_action
 from eliot.parse import Parser
 
 from vf import conc, gen, oracles
@@ -29,9 +30,19 @@ RULE = ("part 'threads': structured multi-thread programs (2-4 threads; own task
         "library bridge (eliot.stdlib.EliotHandler, created wherever the program first needs it). part 'failures': 2-3 threads whose actions fail at "
         "the same time, one with an exception whose registered extractor raises (so that its logging call is busy reporting that), the others with "
         "exceptions whose extractors work (errno of OSError, a registered one), as failed ends or write_traceback; LINE events also on _errors.py "
-        "and _traceback.py; in every schedule each message carries exactly its own exception's extractor fields. non-trivial = "
-        "schedule with a preemption inside eliot code / release order with >=2 live contexts; distinct by interleaving hash")
-ASSUMPTIONS = ["programs join the work they spawn before the enclosing action ends", "switch points: statement boundaries (threads), awaits (tasks)"]
+        "and _traceback.py; in every schedule each message carries exactly its own exception's extractor fields. part 'decorator': the decorator form "
+        "of Action.context() - one function under `@shared_action.context()` (optionally starting an action inside, optionally calling itself) called 1-2 "
+        "times each by 2-3 threads (each inside an action of its own or with none) under the line-granular scheduler (baseline, all one-preemption "
+        "schedules per priority order, sampled 2-3-preemption ones; logging calls into the shared action are guarded by an application lock, so that "
+        "two threads are never in the middle of a logging call into the same Action object - calls of the decorated function still overlap), and by 2-3 asyncio tasks "
+        "under the await-gate driver: directly, re-entrantly and through pool threads (asyncio.to_thread = a copy of the task's context, "
+        "loop.run_in_executor = the pool thread's own context) that wait inside the function for the driver, so that calls of different tasks overlap. "
+        "Inside the function current_action() is the shared action, after it returns the caller's own action (or none) is current again (probe after every "
+        "step), no call raises, every message / started action is found on the tape in the action that was current where it was logged (task_uuid and "
+        "task_level against the start messages), and the canonical parsed forest is identical across schedules. non-trivial = "
+        "schedule with a preemption inside eliot code / release order with >=2 live contexts / (decorator) execution in which a call of the decorated function began while another thread or task was inside one; distinct by interleaving hash")
+ASSUMPTIONS = ["programs join the work they spawn before the enclosing action ends", "switch points: statement boundaries (threads), awaits (tasks)",
+               "part 'decorator': threads / pool threads that log into one Action object do so one logging call at a time (application lock); see DECORATOR_UNGUARDED_SHARED_LOGGING"]
 EXHAUSTIVE_NOTE = "threads: all one-preemption schedules (root thread first and last in priority) of each generated program"
 CASE_TIMEOUT = 900
 
@@ -44,6 +55,11 @@ def plan(tier, seed):
     m = 64 if tier == "quick" else 800
     specs += [{"part": "async", "seed": seed, "i": i, "tier": tier} for i in range(m)]
     specs += [{"part": "failures", "seed": seed, "i": i, "tier": tier} for i in range(6 if tier == "quick" else 40)]
+    if ENABLE_DECORATOR:
+        DCH = 3
+        specs += [{"part": "decorator", "seed": seed, "i": i, "tier": tier, "order": o, "chunk": ch, "nchunks": DCH}
+                  for i in range(4 if tier == "quick" else 24) for o in range(2 if tier == "quick" else 3) for ch in range(DCH)]
+        specs += [{"part": "decorator_async", "seed": seed, "i": i, "tier": tier} for i in range(24 if tier == "quick" else 160)]
     return specs
 
 
@@ -259,6 +275,561 @@ def part_failures(spec, res):
         execute(p, "sampled")
 
 
+# --------------------------------------------------------------------------- part 'decorator'
+#
+# The DECORATOR form of Action.context(): `@shared_action.context()` applied to a function (the object context() returns is a
+# contextlib context manager, which is usable as a decorator and re-creates itself for every call), the decorated function then
+# called by several threads / asyncio tasks at overlapping times, every call logging inside.
+
+ENABLE_DECORATOR = True
+# Threads inside the decorated function all log into ONE Action object. C05 quantifies over thread interleavings "at logging-call
+# boundaries"; the line-granular scheduler also switches threads in the middle of a logging call. With two threads in the middle of
+# a logging call into the same action the UNCHANGED library hands out one task_level twice (Action._nextTaskLevel is a read-modify-
+# write without a lock: e.g. schedule order [w0, w1] + change point (w0, 103) of seed 0 / program 0 gives w1's message and the
+# start of w0's child action position 5 of the shared action, position 3 stays empty, and the parser drops one of the two). That is
+# a placement matter (C02) outside C05's quantifier, so the programs here guard their logging calls into the shared action by an
+# application lock: calls of the decorated function still overlap, switch points inside context() entry / exit and inside every
+# other logging call stay. Set to True to run without that lock (fires on the unchanged tree, see above).
+DECORATOR_UNGUARDED_SHARED_LOGGING = False
+
+
+class DecoEnv(object):
+    """What one execution of a decorator program observed at the public boundary, and what the program did (ground truth)."""
+
+    def __init__(self):
+        self.lock = sched._real_Lock()
+        self.guard = sched.SchedLock(False)  # the application's lock around logging calls into an action several threads log into
+        self.guard_all = False
+        self.problems = []
+        self.probes = 0
+        self.parent = {}  # nid of every logged message / started action -> nid of the action it was logged in (None: no action)
+        self.kind = {}  # nid -> "message" | "action"
+        self.strands = {}  # who -> nids in the order that strand logged them
+        self.what = {}  # nid -> words for reports
+        self.names = {}  # id(action) -> words for reports
+        self.keep = []  # (keeps the named actions alive: ids are not recycled)
+        self.inside = {}  # who -> depth of calls of the decorated function it is in
+        self.overlaps = 0  # calls of the decorated function that began while another thread / task was inside one
+        self.calls = 0
+        self.order = []
+
+    def problem(self, msg):
+        with self.lock:
+            if len(self.problems) < 10:
+                self.problems.append(msg)
+
+    def name(self, action, words):
+        self.names[id(action)] = words
+        self.keep.append(action)
+
+    def describe(self, action):
+        if action is None:
+            return "no action"
+        return self.names.get(id(action), "an action this program never entered (%r)" % (action,))
+
+    def probe(self, expected, where):
+        self.probes += 1
+        got = current_action()
+        if got is not expected:
+            self.problem("current_action() is %s, expected %s (%s)" % (self.describe(got), self.describe(expected), where))
+
+    def logged(self, nid, parent_nid, who, kind, what):
+        with self.lock:
+            self.parent[nid] = parent_nid
+            self.kind[nid] = kind
+            self.what[nid] = what
+            self.strands.setdefault(who, []).append(nid)
+
+    def log(self, parent_nid, who, nid, what, guarded=False):
+        self.logged(nid, parent_nid, who, "message", "%s logged message nid=%s %s" % (who, nid, what))
+        if (guarded or self.guard_all) and not DECORATOR_UNGUARDED_SHARED_LOGGING:
+            with self.guard:
+                log_message(message_type="d:m", nid=nid, who=who)
+        else:
+            log_message(message_type="d:m", nid=nid, who=who)
+
+    def start(self, guarded, **fields):
+        if (guarded or self.guard_all) and not DECORATOR_UNGUARDED_SHARED_LOGGING:
+            with self.guard:
+                return start_action(**fields)
+        return start_action(**fields)
+
+    def enter(self, who):
+        with self.lock:
+            self.calls += 1
+            if any(w != who for w in self.inside):
+                self.overlaps += 1
+            self.inside[who] = self.inside.get(who, 0) + 1
+
+    def leave(self, who):
+        with self.lock:
+            self.inside[who] -= 1
+            if not self.inside[who]:
+                del self.inside[who]
+
+
+def gen_deco_program(rng, tasks):
+    """2-3 workers (threads or asyncio tasks), each inside an action of its own or with none, each calling the decorated function
+    1-2 times between messages of its own."""
+    ids = itertools.count(1)
+    nid = lambda: next(ids)
+    n = rng.choice([2, 2, 3])
+    threaded = tasks and rng.random() < 0.8
+    workers = []
+    for k in range(n):
+        steps = []
+        if tasks:
+            steps.append({"k": "await", "nid": nid()})
+        if rng.random() < 0.5:
+            steps.append({"k": "msg", "nid": nid()})
+        for _ in range(rng.choice([1, 1, 2])):
+            call = {"k": "call", "nid": nid(), "inside": [nid() for _ in range(rng.randint(1, 2))], "sub": None, "rec": None, "how": "direct"}
+            if rng.random() < 0.3:
+                call["sub"] = {"nid": nid(), "msg": nid()}  # an action started inside the decorated function: a child of the shared action
+            if rng.random() < 0.2:
+                call["rec"] = {"nid": nid(), "inside": [nid()], "sub": None, "rec": None, "how": "direct"}  # the decorated function calls itself
+            if threaded and (k < 2 or rng.random() < 0.6):
+                # the call runs in a pool thread and waits there for the driver: calls of different tasks overlap in time
+                call["how"] = rng.choice(["to_thread", "executor"])
+                call["park"] = nid()
+                call["pre"], call["post"] = nid(), nid()
+            steps.append(call)
+            if tasks and rng.random() < 0.6:
+                steps.append({"k": "await", "nid": nid()})
+            steps.append({"k": "msg", "nid": nid()})
+        workers.append({"own": rng.random() < 0.7, "job": nid(), "steps": steps})
+    return {"shared": nid(), "root": nid(), "workers": workers, "spawn": rng.choice(["create_task", "gather", "taskgroup"])}
+
+
+def make_decorated(env, shared, shared_nid, park=None):
+    """The function under `@shared.context()`. Inside it the shared action is current, whoever calls it."""
+
+    @shared.context()
+    def handle(who, call, depth=0):
+        env.enter(who)
+        try:
+            env.probe(shared, "%s inside the function decorated with the shared action's context(), call %s" % (who, call["nid"]))
+            for j, n in enumerate(call["inside"]):
+                if j == 0 and park is not None and call.get("park"):
+                    # logs on both sides of the wait
+                    env.log(shared_nid, who, call["park"], "inside the decorated function, before waiting there", guarded=True)
+                    park(call["park"])
+                    env.probe(shared, "%s inside the decorated function after waiting there, call %s" % (who, call["nid"]))
+                env.log(shared_nid, who, n, "inside the function decorated with the shared action's context()", guarded=True)
+                env.probe(shared, "%s inside the decorated function after logging, call %s" % (who, call["nid"]))
+            if call["sub"]:
+                s = call["sub"]
+                env.logged(s["nid"], shared_nid, who, "action", "%s started action d:sub nid=%s inside the decorated function" % (who, s["nid"]))
+                with env.start(True, action_type="d:sub", nid=s["nid"], who=who) as sub:
+                    env.name(sub, "action d:sub nid=%s" % s["nid"])
+                    env.probe(sub, "%s inside an action started in the decorated function" % who)
+                    env.log(s["nid"], who, s["msg"], "inside an action started in the decorated function")
+                env.probe(shared, "%s inside the decorated function after an action started there ended" % who)
+            if call["rec"] and depth == 0:
+                handle(who, call["rec"], 1)
+                env.probe(shared, "%s in the outer call of the decorated function after the inner call returned" % who)
+        finally:
+            env.leave(who)
+        return call["nid"]
+    return handle
+
+
+def deco_call(env, handle, who, call, mine):
+    """One call of the decorated function from a thread / task whose current action is `mine`."""
+    try:
+        r = handle(who, call)
+        if r != call["nid"]:
+            env.problem("%s: the decorated function returned %r, its body returned %r" % (who, r, call["nid"]))
+    except Exception as e:
+        got = current_action()
+        env.problem("%s: after its call of the function decorated with shared_action.context() (call %s) current_action() is %s, before the call it was %s; the call "
+                    "raised %r" % (who, call["nid"], env.describe(got), env.describe(mine), e) if got is not mine else
+                    "%s: calling the function decorated with shared_action.context() raised %r (call %s)" % (who, e, call["nid"]))
+    env.probe(mine, "%s after the decorated function returned: its own context must be current again (call %s)" % (who, call["nid"]))
+
+
+def judge_deco(env, msgs, problems):
+    """Attribution of every message / action on the tape (task_uuid and task_level) against the action that was current, by the
+    program's construction, where it was logged."""
+    starts, ends, plain = {}, {}, {}
+    for m in msgs:
+        n = m.get("nid")
+        if m.get("action_status") == "started":
+            starts.setdefault(n, []).append(m)
+        elif "action_status" in m:
+            # (an end message does not repeat the start fields: it is matched with its start message by position)
+            ends.setdefault((m["task_uuid"], tuple(m["task_level"][:-1])), []).append(m)
+        else:
+            plain.setdefault(n, []).append(m)
+    where = {}  # nid of an action -> (task_uuid, level prefix of its children)
+    for n, ms in starts.items():
+        where[n] = (ms[0]["task_uuid"], list(ms[0]["task_level"][:-1]))
+
+    def owner(uuid, prefix):
+        for n, (u, p) in where.items():
+            if u == uuid and p == prefix:
+                return "action %s nid=%s" % (starts[n][0]["action_type"], n)
+        return "no action of this program (task %s level %r)" % (uuid, prefix)
+
+    for n, p in sorted(env.parent.items()):
+        ms = (starts if env.kind[n] == "action" else plain).get(n, [])
+        if len(ms) != 1:
+            problems.append("%s: %d such messages reached the destination" % (env.what[n], len(ms)))
+            continue
+        m = ms[0]
+        prefix = list(m["task_level"][:-1])
+        if env.kind[n] == "action":
+            prefix = prefix[:-1]
+            e = ends.get((m["task_uuid"], tuple(m["task_level"][:-1])), [])
+            if len(e) != 1 or e[0]["action_status"] != "succeeded":
+                problems.append("%s and left it normally: its end messages are %r" % (env.what[n], e))
+        if p is None:
+            if list(m["task_level"]) != [1]:
+                problems.append("%s with no action current; on the tape it belongs to %s" % (env.what[n], owner(m["task_uuid"], prefix)))
+        elif p not in where:
+            problems.append("%s in action nid=%s, which has no start message" % (env.what[n], p))
+        elif (m["task_uuid"], prefix) != where[p]:
+            problems.append("%s while %s was current there; on the tape it belongs to %s" % (env.what[n], owner(*where[p]), owner(m["task_uuid"], prefix)))
+    if len(msgs) != len(env.parent) + sum(1 for k in env.kind.values() if k == "action"):
+        problems.append("the program logged %d messages and started %d actions, the destination received %d messages" % (
+            sum(1 for k in env.kind.values() if k == "message"), sum(1 for k in env.kind.values() if k == "action"), len(msgs)))
+    try:
+        tasks = list(Parser.parse_stream(msgs))
+    except BaseException as e:
+        problems.append("parsing the tape raised %r" % (e,))
+        return
+    pos = {}
+
+    def walk(node, parent_nid):
+        if node["kind"] == "action":
+            n = (node["start"] or {}).get("nid")
+            for i, ch in enumerate(node["children"]):
+                walk(ch, n)
+                pos[ch["fields"].get("nid") if ch["kind"] == "message" else (ch["start"] or {}).get("nid")] = i
+        else:
+            n = node["fields"].get("nid")
+        if env.parent.get(n, "?") != parent_nid:
+            problems.append("%s: in the parsed forest its parent is action nid=%s, it was logged in action nid=%s" % (env.what.get(n, "nid %r" % (n,)), parent_nid, env.parent.get(n, "?")))
+    for t in tasks:
+        if not t.is_complete():
+            problems.append("a parsed task is not complete")
+        walk(oracles.norm_written(t.root()), None)
+    for who, nids in env.strands.items():
+        last = {}
+        for n in nids:
+            p = env.parent[n]
+            if p is not None and n in pos:
+                if p in last and pos[n] < last[p]:
+                    problems.append("%s: it appears before a message the same strand logged earlier in the same action" % env.what[n])
+                last[p] = pos[n]
+
+
+def part_decorator(spec, res):
+    """Threads under the line-granular scheduler calling one function decorated with `@shared.context()`."""
+    from eliot import add_destinations, remove_destination
+    rng = random.Random("%s:C05:d:%d" % (spec["seed"], spec["i"]))
+    sched.instrument([_action, _output])
+    prog = gen_deco_program(rng, tasks=False)
+    c = res["counters"]
+    forests = set()
+    names = ["w%d" % k for k in range(len(prog["workers"]))]
+
+    def execute(plan_, label):
+        from vf.tape import Recorder, Tape
+        env = DecoEnv()
+        tape = Tape()
+        rec = Recorder(tape, "rec")
+        add_destinations(rec)
+        # the long-lived shared action: started (not entered) by the application before its worker threads, finished after them
+        env.logged(prog["shared"], None, "main", "action", "the main thread started the shared action d:shared nid=%s" % prog["shared"])
+        shared = start_action(action_type="d:shared", nid=prog["shared"])
+        env.name(shared, "the shared action d:shared nid=%s" % prog["shared"])
+        handle = make_decorated(env, shared, prog["shared"])
+
+        def worker(k, w):
+            who = names[k]
+
+            def steps(mine, mine_nid):
+                for st in w["steps"]:
+                    if st["k"] == "msg":
+                        env.log(mine_nid, who, st["nid"], "in its own context, outside the decorated function")
+                    else:
+                        deco_call(env, handle, who, st, mine)
+                    env.probe(mine, "%s after step %s" % (who, st["nid"]))
+
+            def run():
+                env.probe(None, "first probe in thread %s" % who)
+                if w["own"]:
+                    env.logged(w["job"], None, who, "action", "%s started its own action d:job nid=%s" % (who, w["job"]))
+                    with env.start(False, action_type="d:job", nid=w["job"], who=who) as mine:
+                        env.name(mine, "%s's own action d:job nid=%s" % (who, w["job"]))
+                        env.probe(mine, "%s inside its own action" % who)
+                        steps(mine, w["job"])
+                else:
+                    steps(None, None)
+                env.probe(None, "last probe in thread %s" % who)
+            return run
+        try:
+            st, errs = sched.run_schedule(plan_, dict((names[k], worker(k, w)) for k, w in enumerate(prog["workers"])), timeout=120.0)
+            if not (st["deadlock"] or st["aborted"]):
+                shared.finish()
+        finally:
+            remove_destination(rec)
+        res["evals"] += 1
+        c["decorator_thread_schedules"] = c.get("decorator_thread_schedules", 0) + 1
+        if st["deadlock"]:
+            res["violations"].append({"msg": "threads deadlocked inside eliot: %s" % st["deadlock"], "mech": None, "detail": {"part": "decorator", "plan": plan_, "program": prog}})
+            return st
+        if st["aborted"]:
+            res["inconclusive"] = "schedule abandoned: %s" % st["aborted"]
+            return st
+        problems = ["thread %s raised %r" % (n, e) for n, e in errs.items()] + env.problems
+        msgs = tape.msgs("rec")
+        judge_deco(env, msgs, problems)
+        try:
+            forests.add(canonical_forest(msgs, True))
+        except BaseException as e:
+            problems.append("canonicalising the parsed forest raised %r" % (e,))
+        c["context_probes"] = c.get("context_probes", 0) + env.probes
+        c["decorated_calls"] = c.get("decorated_calls", 0) + env.calls
+        res["sets"]["interleavings"].append(sched.trace_hash(st))
+        for nm, k, loc in st["fired"]:
+            res["sets"]["preemption_lines"].append(loc)
+        if env.overlaps:
+            c["decorator_thread_overlaps"] = c.get("decorator_thread_overlaps", 0) + 1
+            res["nontrivial"].append(sched.trace_hash(st))
+        if problems and len(res["violations"]) < 3:
+            res["violations"].append({"msg": problems[0], "mech": None, "detail": {"part": "decorator", "plan": plan_, "program": prog, "problems": problems[:6], "label": label,
+                                                                                  "overlapping_calls": env.overlaps}})
+        return st
+
+    shuffled = list(names)
+    rng.shuffle(shuffled)
+    order = [names, names[1:] + names[:1], shuffled][spec["order"]]
+    base = execute({"order": order, "changes": []}, "baseline")
+    if base["aborted"] or base["deadlock"]:
+        return
+    for j, p in enumerate(sched.one_preemption_plans(order, base["events"])):
+        if j % spec["nchunks"] != spec["chunk"]:
+            continue
+        execute(p, "1-preemption")
+        if len(res["violations"]) >= 3:
+            return
+    r2 = random.Random("%s:C05:d:%d:%d:%d" % (spec["seed"], spec["i"], spec["order"], spec["chunk"]))
+    for p in sched.sampled_plans(r2, names, base["events"], 6 if spec["tier"] == "quick" else 24):
+        execute(p, "sampled")
+    if len(forests) > 1:
+        res["violations"].append({"msg": "the parsed forest of one decorator program differs between schedules (%d distinct forests)" % len(forests), "mech": None,
+                                  "detail": {"part": "decorator", "program": prog}})
+    if spec["chunk"] == 0 and spec["order"] == 0:
+        c["decorator_thread_programs"] = c.get("decorator_thread_programs", 0) + 1
+        if spec["i"] % 4 == 0:
+            res["sample"] = {"part": "decorator", "program": prog, "baseline_events": base["events"]}
+
+
+class HarnessStuck(Exception):
+    pass
+
+
+class DecoGate(object):
+    """Await gate (as vf.conc.Gate) that can also park a pool thread: the driver releases one parked coroutine or thread at a
+    time and lets nothing else be picked while a released thread is still running."""
+
+    def __init__(self, rng):
+        self.rng = rng
+        self.parked = []  # (nid, future or None, threading.Event or None)
+        self.order = []
+        self.loop = None
+        self.in_flight = 0  # calls handed to pool threads whose callers have not resumed yet (touched on the loop's thread only)
+        self.threads_parked = 0  # (touched on the loop's thread only)
+
+    async def point(self, nid):
+        fut = self.loop.create_future()
+        self.parked.append((nid, fut, None))
+        await fut
+
+    def _park_thread(self, nid, ev):
+        self.parked.append((nid, None, ev))
+        self.threads_parked += 1
+
+    def thread_point(self, nid):
+        ev = threading.Event()
+        self.loop.call_soon_threadsafe(self._park_thread, nid, ev)
+        if not ev.wait(30):
+            raise HarnessStuck("a pool thread was never released")
+
+
+async def _deco_drive(gate, main_coro):
+    gate.loop = asyncio.get_running_loop()
+    main = asyncio.ensure_future(main_coro)
+    idle = 0
+    while not main.done():
+        for _ in range(6):
+            await asyncio.sleep(0)
+        if gate.in_flight > gate.threads_parked:
+            # a pool thread is running: wait until it parks or until its caller has taken the result
+            await asyncio.sleep(0.0002)
+            idle += 1
+            if idle > 100000:
+                main.cancel()
+                raise HarnessStuck("a pool thread made no progress")
+            continue
+        if gate.parked:
+            idle = 0
+            nid, fut, ev = gate.parked.pop(gate.rng.randrange(len(gate.parked)))
+            gate.order.append(nid)
+            if ev is not None:
+                gate.threads_parked -= 1
+                ev.set()
+            else:
+                fut.set_result(None)
+        else:
+            idle += 1
+            if idle > 2000 and not main.done():
+                main.cancel()
+                raise HarnessStuck("coroutine program made no progress")
+    for nid, fut, ev in gate.parked:
+        if ev is not None:
+            ev.set()
+    await main
+
+
+def run_deco_async(prog, rng):
+    from eliot import add_destinations, remove_destination
+    from vf.tape import Recorder, Tape
+    env = DecoEnv()
+    env.guard_all = True  # pool threads and the loop's thread log into the same actions (d:root, d:shared) under OS scheduling
+    gate = DecoGate(rng)
+    tape = Tape()
+    rec = Recorder(tape, "rec")
+
+    async def task_body(k, w, root):
+        who = "t%d" % k
+        # an asyncio task inherits the action current where it was created
+        env.probe(root, "first probe in task %s" % who)
+
+        def in_pool(call, cur, cur_nid, copied):
+            # runs in a pool thread: with asyncio.to_thread in a copy of the calling task's context, with
+            # loop.run_in_executor in the pool thread's own context, where no action is ever entered and not left again
+            here = cur if copied else None
+            here_nid = cur_nid if copied else None
+            words = "in a pool thread running in a copy of its context" if copied else "in a pool thread's own context"
+            env.probe(here, "%s %s, before the decorated function" % (who, words))
+            env.log(here_nid, who, call["pre"], "%s, before calling the decorated function" % words)
+            deco_call(env, handle_box[0], who, call, here)
+            env.log(here_nid, who, call["post"], "%s, after the decorated function returned" % words)
+            env.probe(here, "%s %s, after the decorated function" % (who, words))
+
+        async def steps(mine, mine_nid):
+            for st in w["steps"]:
+                if st["k"] == "msg":
+                    env.log(mine_nid, who, st["nid"], "in its own context, outside the decorated function")
+                elif st["k"] == "await":
+                    await gate.point(st["nid"])
+                elif st["how"] == "direct":
+                    deco_call(env, handle_box[0], who, st, mine)
+                else:
+                    gate.in_flight += 1
+                    try:
+                        if st["how"] == "to_thread":
+                            await asyncio.to_thread(in_pool, st, mine, mine_nid, True)
+                        else:
+                            await asyncio.get_running_loop().run_in_executor(None, in_pool, st, mine, mine_nid, False)
+                    except HarnessStuck:
+                        raise
+                    except Exception as e:
+                        env.problem("%s: the call handed to a pool thread raised %r" % (who, e))
+                    finally:
+                        gate.in_flight -= 1
+                env.probe(mine, "%s after step %s" % (who, st["nid"]))
+        if w["own"]:
+            env.logged(w["job"], prog["root"], who, "action", "%s started its own action d:job nid=%s" % (who, w["job"]))
+            with env.start(False, action_type="d:job", nid=w["job"], who=who) as mine:
+                env.name(mine, "%s's own action d:job nid=%s" % (who, w["job"]))
+                await steps(mine, w["job"])
+        else:
+            await steps(root, prog["root"])
+        env.probe(root, "last probe in task %s" % who)
+
+    handle_box = []
+
+    async def main():
+        env.logged(prog["root"], None, "main", "action", "the main task started action d:root nid=%s" % prog["root"])
+        with start_action(action_type="d:root", nid=prog["root"]) as root:
+            env.name(root, "action d:root nid=%s" % prog["root"])
+            env.logged(prog["shared"], prog["root"], "main", "action", "the main task started the shared action d:shared nid=%s" % prog["shared"])
+            shared = start_action(action_type="d:shared", nid=prog["shared"])
+            env.name(shared, "the shared action d:shared nid=%s" % prog["shared"])
+            env.probe(root, "main task after starting (not entering) the shared action")
+            handle_box.append(make_decorated(env, shared, prog["shared"], park=gate.thread_point))
+            coros = [task_body(k, w, root) for k, w in enumerate(prog["workers"])]
+            if prog["spawn"] == "gather":
+                await asyncio.gather(*coros)
+            elif prog["spawn"] == "taskgroup":
+                async with asyncio.TaskGroup() as tg:
+                    for co in coros:
+                        tg.create_task(co)
+            else:
+                for t in [asyncio.get_running_loop().create_task(co) for co in coros]:
+                    await t
+            env.probe(root, "main task after its tasks ended")
+            shared.finish()
+            env.probe(root, "main task after finishing the shared action")
+    problems = []
+    stuck = None
+    add_destinations(rec)
+    try:
+        asyncio.run(_deco_drive(gate, main()))
+    except HarnessStuck as e:
+        stuck = str(e)
+    except BaseException as e:
+        problems.append("running the coroutine program raised %r" % (e,))
+    finally:
+        remove_destination(rec)
+    problems += env.problems
+    if any("HarnessStuck" in p for p in problems):
+        stuck = stuck or "a pool thread was never released"
+    return problems, env, tape, gate.order, stuck
+
+
+def part_decorator_async(spec, res):
+    """asyncio tasks under the await-gate driver calling one function decorated with `@shared.context()`: directly (also
+    re-entrantly) and through pool threads (asyncio.to_thread / loop.run_in_executor) that wait inside it, so that calls overlap."""
+    rng = random.Random("%s:C05:da:%d" % (spec["seed"], spec["i"]))
+    prog = gen_deco_program(rng, tasks=True)
+    c = res["counters"]
+    forests = set()
+    for k in range(12 if spec["tier"] == "quick" else 30):
+        r = random.Random("%s:C05:da:%d:%d" % (spec["seed"], spec["i"], k))
+        problems, env, tape, order, stuck = run_deco_async(prog, r)
+        res["evals"] += 1
+        c["decorator_async_runs"] = c.get("decorator_async_runs", 0) + 1
+        if stuck:
+            res["inconclusive"] = "decorator_async: %s" % stuck
+            return
+        msgs = tape.msgs("rec")
+        judge_deco(env, msgs, problems)
+        try:
+            forests.add(canonical_forest(msgs, True))
+        except BaseException as e:
+            problems.append("canonicalising the parsed forest raised %r" % (e,))
+        c["context_probes"] = c.get("context_probes", 0) + env.probes
+        c["decorated_calls"] = c.get("decorated_calls", 0) + env.calls
+        res["sets"]["interleavings"].append(h(["da", spec["i"], order]))
+        if env.overlaps:
+            c["decorator_async_overlaps"] = c.get("decorator_async_overlaps", 0) + 1
+            res["nontrivial"].append(h(["da", spec["i"], order]))
+        if problems and len(res["violations"]) < 3:
+            res["violations"].append({"msg": problems[0], "mech": None, "detail": {"part": "decorator_async", "program": prog, "release_order": order, "problems": problems[:6],
+                                                                                  "overlapping_calls": env.overlaps}})
+    if len(forests) > 1:
+        res["violations"].append({"msg": "the parsed forest of one decorator coroutine program differs between schedules (%d distinct forests)" % len(forests), "mech": None,
+                                  "detail": {"part": "decorator_async", "program": prog}})
+    c["decorator_async_programs"] = c.get("decorator_async_programs", 0) + 1
+    if spec["i"] % 10 == 0:
+        res["sample"] = {"part": "decorator_async", "program": prog}
+
+
 def part_async(spec, res):
     rng = random.Random("%s:C05:a:%d" % (spec["seed"], spec["i"]))
     prog = conc.gen_async_program(rng, max_tasks=rng.choice([2, 4, 6, 8]))
@@ -298,6 +869,10 @@ def run_case(spec):
         part_threads(spec, res)
     elif spec["part"] == "failures":
         part_failures(spec, res)
+    elif spec["part"] == "decorator":
+        part_decorator(spec, res)
+    elif spec["part"] == "decorator_async":
+        part_decorator_async(spec, res)
     else:
         part_async(spec, res)
     return res
@@ -313,4 +888,9 @@ def finalize(agg, tier):
         return "part 'failures': too few preemptions landed inside eliot's failure reporting"
     if not any(l.startswith("_action.py") for l in agg["sets"].get("preemption_lines", {})):
         return "no preemption landed inside eliot/_action.py"
+    if ENABLE_DECORATOR:
+        if c.get("decorator_thread_schedules", 0) < 200 or c.get("decorator_thread_overlaps", 0) < 50:
+            return "part 'decorator': too few schedules in which two threads were inside the decorated function at the same time"
+        if c.get("decorator_async_runs", 0) < 100 or c.get("decorator_async_overlaps", 0) < 20:
+            return "part 'decorator' (tasks): too few runs in which two calls of the decorated function overlapped"
     return None
